@@ -35,6 +35,7 @@ def configs(tier):
                 result.append({"preset": preset, "header": 0, "fields": ["ka", "v"], "checks": checks, "family": "both"})
         result.append({"preset": preset, "header": 0, "fields": ["ka", "kb"], "checks": [["u1", "IsUnique", "ka"], ["u2", "IsUnique", "kb"]], "family": "two-unique"})
         result.append({"preset": preset, "header": 0, "fields": ["kt1", "kt2"], "checks": [["u", "IsUnique", "kt1, kt2"]], "family": "unique"})
+        result.append({"preset": preset, "header": 0, "fields": ["kc1", "kc2"], "checks": [["u", "IsUnique", "kc1, kc2"]], "family": "unique"})
         # two fields whose names differ only in case: a rule names exactly the field it spells
         result.append({"preset": preset, "header": 0, "fields": ["ka", "KA"], "checks": [["u", "IsUnique", "KA"]], "family": "unique"})
         result.append({"preset": preset, "header": 0, "fields": ["ka", "KA"], "checks": [["d", "DistinctCount", "KA < 2"]], "family": "distinct"})
@@ -133,6 +134,27 @@ def judge(case, part):
         expected_end = prediction["close"]
         if (api_raised is None) != (expected_end is None) or (api_raised is not None and api_raised.get("type") != "CheckError"):
             part.fail(tag % ("cutplace.rows-%s-end-of-data-verdict" % mode), case, "CheckError" if expected_end else "no error", api_raised)
+    # the validate-only entry point, without a limit and with one that covers all rows or all but the last: it fails iff a row within the limit is
+    # rejected or the end-of-data verdict over the rows within the limit fails
+    import cutplace
+
+    errors = harness.modules()["errors"]
+    for limit in dict.fromkeys((None, len(table), max(len(table) - 1, 0))):
+        limited = prediction if limit is None else rowmodel.predict(decls, config["checks"], header, limit, raw)
+        bad = next((e[1] for e in limited["events"] if e[0] == "rej"), None)
+        expected_class = bad["class"] if bad is not None else ("CheckError" if limited["close"] else None)
+        source6, _ = readermachine.store(config, decls, table)
+        try:
+            cutplace.validate(readermachine.make_cid(config, decls), source6, validate_until=limit)
+            observed_class = None
+        except errors.CutplaceError as error:
+            observed_class = type(error).__name__
+        except Exception as error:
+            observed_class = "foreign:" + type(error).__name__
+        part.transitions += 1
+        part.validated += 1
+        if observed_class != expected_class:
+            part.fail(tag % ("cutplace.validate%s:%s-but-expected-%s" % ("" if limit is None else "-with-limit", observed_class, expected_class)), dict(case, limit=limit), expected_class, observed_class)
     if len(table) <= 3 and not isinstance(source, str):
         # the command line: exit code 1 iff a row is rejected or finishing the validation fails
         from cutplace import applications
